@@ -42,7 +42,7 @@ def judge(ctx, r):
     exp = {e[1]: (bytes.fromhex(e[8]), e[2], bytes.fromhex(e[7]).decode("cp1252"), e[5], e[6], None) for e in a0["live"]}
     for i, s in enumerate(r.steps):
         rep = C.replay_of(r, i)
-        if s["real"] == "ok" and s["op"][0] != "reopen":
+        if s["real"] == "ok" and s["op"][0] not in C.IDLE:
             expected_after(exp, s)
         a = C.absfile(s["after"])
         if a is None:
@@ -100,7 +100,7 @@ def judge(ctx, r):
 def run(ctx):
     import sessions.c03 as c03
     import itertools
-    runs = itertools.chain(C.explore(ctx, ctx.n(500, 6000), 12, c03.STYLES_WF, p_invalid=0.15), C.explore_equal_sizes(ctx, depth=4 if ctx.thorough else 3), C.explore_boundary_sizes(ctx), C.explore_equal_sizes_big(ctx), C.explore_one_object(ctx, depth=5 if ctx.thorough else 4))
+    runs = itertools.chain(C.explore(ctx, ctx.n(500, 6000), 12, c03.STYLES_WF, p_invalid=0.15), C.explore_equal_sizes(ctx, depth=4 if ctx.thorough else 3), C.explore_boundary_sizes(ctx), C.explore_equal_sizes_big(ctx), C.explore_one_object(ctx, depth=5 if ctx.thorough else 4), C.explore_two_objects(ctx, ctx.n(150, 3000)))
     for r in runs:
         ctx.case((r.desc, str(C.jsonable_hist(r.hist))), nontrivial=C.nontrivial_history(r),
                  sample=dict(start=r.desc, ops=[s["op"][0] + ":" + s["real"] for s in r.steps]), tags=C.history_tags(r))
